@@ -156,7 +156,7 @@ def validate_traces(chk: Check, traces, tag, module="Trace_Manager", constants=N
     done = accepted | {r["reject"] for r in rejects} | {r["reject"] for r in inv}
     if len(done) != len(traces):
         machinery_failure(f"{module}: {len(done)} of {len(traces)} traces reached a verdict\n{res.out[-2000:]}")
-    chk.add_tlc(f"{module}:{tag}", res, f"{len(traces)} recorded traces, {sum(len(t['events']) for t in traces)} events")
+    chk.add_tlc(f"{module}:{tag}", res, f"{len(traces)} recorded traces, {sum(len(t.get('events', t.get('steps', []))) for t in traces)} events")
     chk.add_traces(len(traces))
     return rejects + inv
 
